@@ -642,7 +642,7 @@ class World:
         leaves room for only a few more nodes: each either is refused
         with "full" (and everything stays as it was, up to unreferenced
         nodes) or returns the right function."""
-        if self.kind != 'bdd' or self.reordering:
+        if self.reordering:
             return ('tight-skip',)
         old = self.raw.max_nodes
         log = []
